@@ -7,7 +7,7 @@ from ..prng import Rng
 from ..seams import CLOCK, F, T, reset_world, LIB_ERRORS
 from ..core import real
 from ..oracle import (ACCEPT, REJECT, EITHER, slack3, slack_tripped_int, validsig,
-                      ed_verify, pubkey_of_seed, as_key_arg, PREFIXES)
+                      ed_verify, pubkey_of_seed, as_key_arg, PREFIXES, DECORATIONS)
 
 PID = 'C14'
 ISOLATE = True      # one forked process per run: nothing a run does to process-global
@@ -50,7 +50,7 @@ REQUIRED_PROBES = ['t==begin', 't==end-1', 't==end'] + \
      'replay_after_expiry', 'cross_lock_witness', 'cert_roundtrip',
      'honest_accept_single', 'honest_accept_chain', 'threshold_per_call',
      'second_hierarchy', 'foreign_witness_verified_under_own_root_first',
-     'default_timestamp', 'crafted_witness']
+     'default_timestamp', 'crafted_witness', 'witness_with_code']
 NAMES = ['K', 'Kp'] + ['D%d' % i for i in range(1, 7)] + ['F%d' % i for i in range(1, 7)]
 FIELD_RANGE = {'key': (0, 32), 'begin': (32, 36), 'end': (36, 40), 'can': (40, 41),
                'sig': (41, 105)}
@@ -120,7 +120,7 @@ def gen_step(rng, cell, clocks, vname, at_us, thr, fault_free):
             'root': root, 'via': rng.choice(['global', 'global', 'additional']),
             'gthr': rng.choice([60, 0, 1, 10 ** 6]), 'default_t': rng.chance(1, 8),
             'keys': rng.choice(['bytes', 'bytes', 'object']), 'prefix': rng.choice(PREFIXES),
-            'cert_as': rng.choice(['bytes', 'object']),
+            'cert_as': rng.choice(['bytes', 'object']), 'decor': rng.choice(DECORATIONS),
             't': t, 'thr': thr, 'chain': chain, 'signer': '%s%d' % (pre, ln),
             'allowed': rng.choice(['00', '00', '01', '03', '80', 'c1']), 'flag': '00',
             'sigfields': {'sigfield%d' % k: rng.bytes(rng.choice([1, 16, 64, 64, 255, 256, 300])).hex()
@@ -364,6 +364,9 @@ def execute(plan, run):
         lock = real('make_delegate_key_lock', T.make_delegate_key_lock if step['lock'] == 'single'
                     else T.make_delegate_key_chain_lock,
                     as_key_arg('pub', root_pk, step.get('keys', 'bytes')), step['allowed'])
+        if step.get('decor'):
+            run.probe('witness_with_code')
+            w = T.Script('# decorated witness #', T.compile_script(step['decor']) + w.bytes)
         cache_in = dict(sf) if step.get('default_t') else {**sf, 'timestamp': step['t']}
         CLOCK.latency_us = kn['latency_us']
         CLOCK.begin_call(step['validator'], step['faults'])
